@@ -304,3 +304,33 @@ prop('C14',
      'decoded, and validate/get_format/tostring are called on whatever structure results with fatal signals '
      'attributed to the case.',
      level_note='Sampled input space with adversarial size fields; ILP32 pointer-width effects cannot be run here.')
+
+# ----------------------------------------------------------------------- C10
+MQ = [R + 'messageq.c']
+prop('C10',
+     'exh: every history of length 7 (quick) / 9 (thorough) over {claim, send oldest claimed, send newest claimed, '
+     'receive, release} for every depth 1..32 x message sizes {1,3,4,8,33} x slack {0,1,size-1}; rand: histories of '
+     '3*depth..20*depth operations for every depth 1..32 x sizes {1,2,3,4,5,7,8,12,16,24,33,100,255,256,1000} x slack '
+     '{0,1,size-1}, sends permuted among claimed messages, three fill-level biases; every history runs on a queue made '
+     'by messageq_init and on a twin made by MESSAGEQ_VAR_INIT. Non-trivial = history that wraps the slot index (or '
+     'hits a full queue) and sends out of claim order; distinct by construction (exh) / hash of geometry+history.',
+     [Stage('exh', ['harness/mq_seq.c'], MQ, preset='asan', nproc=16,
+            args={'quick': ['--extra', 'exh'], 'thorough': ['--extra', 'exh']},
+            needs_min={'exhaustive_histories_executed': 100000}, timeout={'quick': 600, 'thorough': 7200}),
+      Stage('rand', ['harness/mq_seq.c'], MQ, preset='asan', nproc=16,
+            args={'quick': ['--extra', 'rand'], 'thorough': ['--extra', 'rand']},
+            needs_min={'histories_nontrivial': 10000, 'histories_with_claim_on_full_queue': 10000}),
+      Stage('rand-clang-O2', ['harness/mq_seq.c'], MQ, preset='asan-O2', cc='clang', nproc=16, tiers=('thorough',),
+            args={'thorough': ['--extra', 'rand', '--cases', '1000000']})],
+     assumptions=['releases are issued in receive order (the API documents strict order); sends may be reordered '
+                  'among claimed messages',
+                  'UBSan shift-base is off: 1<<31 for the 32nd slot is the intended value (DESIGN 2.3)'],
+     exhaustive_note='exh stage: all histories of the stated length per geometry',
+     engine='E1', technique='runtime monitoring: lock-step slot-state model over enumerated and random histories for '
+     'every geometry, payload patterns, twin queue from the static initialiser, ASan+UBSan on exactly-sized storage',
+     level_text='Exploration. For every depth 1..32 and a range of message sizes and slacks, enumerated short histories '
+     'and random long ones run on the real messageq.c against a slot-state model; returned pointers, NULLs, '
+     'messageq_empty, payload patterns and slack bytes are compared after every operation, on a queue from '
+     'messageq_init and on one from MESSAGEQ_VAR_INIT.',
+     level_note='Sequential histories only (concurrency is C04). Exhaustive histories are too short to wrap deep queues; '
+     'the random histories do.')
